@@ -260,7 +260,7 @@ def run(rep, tier, seed):
     if tier == 'quick':
         names, init_limit, max_states = configs.SMALL + ['crossing.7x7', 'four_rooms.7x7', 'teleport.7x7'], 400, 20000
     else:
-        names, init_limit, max_states = [n for n, _ in configs.all_configs()], 3000, 150000
+        names, init_limit, max_states = [n for n, _ in configs.all_configs()], 500, 50000
     rs, rt = dyn.run_reach(rep, names, init_limit, max_states, make_hooks, replay, 'kinematics_on_reachable_edges', lineages=4)
     sn = 0
     for name in (configs.SMALL if tier == 'quick' else [n for n, _ in configs.all_configs()]):
